@@ -276,6 +276,18 @@ func runWaitCase(cs *WaitCase) (*waitObs, []finding) {
 			nb = nb.WithExecFallbackFunc(func(any, error) (any, error) { return "rescued", nil })
 		}
 		node = nb
+	case "flow-retry", "flow-retry-nested":
+		// the retry settings sit on a FLOW (its BaseNode: the way the API offers): the flow as a whole is attempted N
+		// times around an inner node (budget 1) that fails; between the end of one flow attempt and the start of the
+		// next at least w passes, and a cancellation during that wait ends the run promptly
+		inner := &waitNode{flyt.NewBaseNode(), w}
+		f := flyt.NewFlow(inner)
+		flyt.WithMaxRetries(cs.N)(f.BaseNode)
+		flyt.WithWait(wait)(f.BaseNode)
+		node = f
+		if cs.Kind == "flow-retry-nested" {
+			node = flyt.NewFlow(f)
+		}
 	case "flow-self-loop":
 		// a node with a wait configured and a budget > 1 whose first attempt always succeeds, visited cs.Items times through a
 		// self-loop: every visit is a fresh run of the node — no wait before its first attempt, so no wait at all
@@ -559,6 +571,20 @@ func runC20(c *Cfg) {
 		}
 	}
 	// upper bounds ("no wait before the first attempt or after the last one"): w = 300 ms
+	// retry settings on a flow (through its BaseNode): the wait between flow attempts, and its interruption
+	for _, kind := range []string{"flow-retry", "flow-retry-nested"} {
+		for _, wn := range []time.Duration{5 * time.Millisecond, 20 * time.Millisecond} {
+			cases = append(cases, &WaitCase{Family: "lower-bound-flow-level-retries", Kind: kind, WaitNs: int64(wn), N: 3, K: 4, Items: 1})
+			cases = append(cases, &WaitCase{Family: "lower-bound-flow-level-retries", Kind: kind, WaitNs: int64(wn), N: 3, K: 3, Items: 1})
+		}
+		for _, in := range []bool{false, true} {
+			cases = append(cases, &WaitCase{Family: "interrupt-flow-level-wait", Kind: kind, WaitNs: int64(time.Hour), N: 3, K: 4, Cancel: 1, InCB: in, Items: 1})
+		}
+	}
+	// wide concurrent batches (16 and more workers AND items): every item's own wait is still a full w
+	for _, wc := range [][2]int{{16, 20}, {32, 16}, {24, 40}} {
+		cases = append(cases, &WaitCase{Family: "lower-bound-wide-batch", Kind: "batch", WaitNs: int64(20 * time.Millisecond), N: 3, K: 4, C: wc[0], Items: wc[1]})
+	}
 	// a hand-written context type (its Err() is an error of its own) cancelled during the wait: the run's / the item's
 	// error matches THAT error
 	for _, kind := range []string{"struct", "func", "batch"} {
